@@ -126,6 +126,7 @@ TAMPER_OUT = ["out_spk_attacker_p2sh", "out_spk_attacker_p2wsh", "out_spk_p2pkh"
               "out_spk_p2tr", "out_script_foreign", "out_script_and_spk_foreign", "out_foreign_fingerprint",
               "out_wrong_path", "out_keys_from_one_cosigner", "out_changed_quorum", "second_change_output",
               "out_noncanonical_script_all_keys", "out_noncanonical_script_extra_ops",
+              "out_script_one_genuine_key_rest_foreign",
               "spend_gets_change_metadata", "out_amount_changed",
               # not an attack: a payment to a script without an address form (or of an unusual kind); the
               # summary may refuse it, but if it is given its sums must still add up
@@ -399,6 +400,17 @@ def check_tamper(case, ctx):
         for sec, i in zip(secs, idxs):
             kvs.append((b"\x02" + sec, model.deriv_value(who, 1, i)))
         pm["outputs"][ci] = kvs
+    elif t == "out_script_one_genuine_key_rest_foreign":
+        # the change script holds ONE genuine change key, the other n-1 keys are the attacker's; the output
+        # still declares a genuine derivation for every cosigner (only one of them occurs in the script)
+        if n < 2:
+            raise Discard("needs n >= 2")
+        genuine = model.secs(1, case["change_idx"])
+        keep = w % n
+        script = Model.multisig(m, [genuine[keep]] + att_secs[: n - 1])
+        tx["outs"][ci]["spk"] = Model.spk(script, kind)
+        psbtmap.set_tx(pm, tx)
+        set_kv(pm["outputs"][ci], SCRIPT_KEY, script)
     elif t in ("out_changed_quorum", "in_changed_quorum_script"):
         if n < 2:
             raise Discard("needs n >= 2")
